@@ -92,7 +92,12 @@ RxClause(v) ==
        THEN <<"C19.Decodes", "MAC / name / PA level differ from what was advertised">>
   ELSE OK
 \* read() order: elements come out in arrival order, each once
-OrderClause(v) == IF v.read_macs = v.arrived_macs THEN OK ELSE <<"C19.ReadOrder", "read() order differs from arrival order">>
+\* (read_elems / arrived_elems, when recorded: the decoded content of every element handed out by read() is what was decoded
+\* when its packet arrived - elements waiting in the queue are not altered by packets that arrive later)
+OrderClause(v) == IF v.read_macs # v.arrived_macs THEN <<"C19.ReadOrder", "read() order differs from arrival order">>
+                  ELSE IF "read_elems" \in DOMAIN v /\ v.read_elems # v.arrived_elems
+                       THEN <<"C19.Decodes", "an element read later no longer decodes to what its packet carried">>
+                  ELSE OK
 
 Clause(v) == CASE v.k = "adv" -> AdvClause(v) [] v.k = "rx" -> RxClause(v) [] v.k = "order" -> OrderClause(v)
 TInit == tid \in 1..Len(V)
